@@ -230,8 +230,17 @@ func writeStructFieldUnmarshaller(name string, typ FieldType, w *iohelp.ErrorWri
 		writeLineWithTabs(w, "\t}", depth)
 		ln := getLineWithTabs(settings.typeUnmarshallers[typ.Map.Key], depth+1, "&"+depthName("k", depth))
 		w.SafeWrite([]byte(strings.Replace(ln, "=", ":=", 1)))
-		name = "&(" + name[1:] + "[" + depthName("k", depth) + "])"
-		writeStructFieldUnmarshaller(name, typ.Map.Value, w, settings, depth+1)
+		elem := "(" + name[1:] + "[" + depthName("k", depth) + "])"
+		if typ.Map.Value.Array != nil || typ.Map.Value.Map != nil {
+			// a container value is filled in a local and stored afterwards: reading
+			// m[k] back while filling it yields the zero value when k is NaN
+			tmp := depthName("mv", depth)
+			writeLineWithTabs(w, "var "+tmp+" "+typ.Map.Value.goString(settings), depth+1)
+			writeStructFieldUnmarshaller("&"+tmp, typ.Map.Value, w, settings, depth+1)
+			writeLineWithTabs(w, elem+" = "+tmp, depth+1)
+		} else {
+			writeStructFieldUnmarshaller("&"+elem, typ.Map.Value, w, settings, depth+1)
+		}
 		writeLineWithTabs(w, "}", depth)
 	} else {
 		simpleTyp := typ.Simple
